@@ -105,7 +105,13 @@ def _setup() -> None:
     L["g1(s1)"] = g1(s1)
     L["D1"] = sp.Derivative(fL(sT), sT)
     L["D2"] = sp.Derivative(hL(sL, sT), (sL, 2))
-    for n in ("fL(sT)", "g1(s1)", "D1", "D2"):
+    # a derivative whose order is a symbol: dimension length / time**n
+    nsym = Symbol("n_order", U.Dimension(1), positive=True, integer=True)
+    _DIM[nsym] = dims.ONE
+    _NAME[nsym] = "n_order"
+    _NUM[nsym] = sp.Integer(2)
+    L["Dn"] = sp.Derivative(fL(sT), (sT, nsym))
+    for n in ("fL(sT)", "g1(s1)", "D1", "D2", "Dn"):
         _NAME[L[n]] = n
     _QSUB[L["fL(sT)"]] = Quantity(sp.Rational(7, 3) * U.meter)
     _QSUB[L["g1(s1)"]] = Quantity(sp.Rational(9, 4))
@@ -114,7 +120,7 @@ def _setup() -> None:
 
 
 FULL = ["2", "-3", "1/2", "0", "oo", "nan", "sL", "sT", "sM", "s1", "sV", "Q3m", "Q0len",
-    "Q2s", "Q5", "Qz", "fL(sT)", "g1(s1)", "D1", "D2", "avL", "dT", "dM", "dW", "Qtiny"]
+    "Q2s", "Q5", "Qz", "fL(sT)", "g1(s1)", "D1", "D2", "avL", "dT", "dM", "dW", "Qtiny", "Dn"]
 MEDIUM = ["2", "0", "oo", "sL", "sT", "s1", "sV", "Q3m", "Q0len", "Q2s", "Qz", "fL(sT)", "D1",
     "avL", "dT"]
 REDUCED = ["2", "0", "sL", "sT", "s1", "Q3m", "Q0len", "D1"]
@@ -383,8 +389,10 @@ def judge(e: Any, wrappers: bool) -> tuple[str, str]:
         return label, f"returned expression {short(gexpr)} is not value-equal to the input"
     if isinstance(wd, dims.AnyDim) or status != NON:
         return label, ""
-    # commuting diagram
-    if function_args_dimensionless(e):
+    # commuting diagram (a derivative of symbolic order has no quantity to stand for it)
+    symbolic_order = any(not c.is_Integer for d_ in e.atoms(sp.Derivative) for _, c in
+        d_.variable_count)
+    if function_args_dimensionless(e) and not symbolic_order:
         sub = substitute_quantities(e)
         try:
             q = Quantity(sub)
